@@ -306,13 +306,90 @@ class Check(PropertyCheck):
         # "at most five upstream connections to the same address are open at the same time"
         for a, m in obs["max_open"].items():
             if m > 5: fails.append(f"{m} connections to {a} open at the same time")
-        # "no connection resources remain after client_disconnected has fired" (checked when handle_client returns; not
-        #  applicable if the scripted layer opened a connection after handle_client had collected the transports)
+        # "no connection resources remain after client_disconnected has fired" (checked when handle_client returns).  The
+        # scripted layer may open a connection after handle_client has collected the transports to wait for (the lateOpen
+        # hypothesis of the Lean theorem): only what such a late OpenConnection created may remain, everything else must be gone
         ar = obs["at_return"]
-        if not self._late_open(tr):
-            if ar["transports"]: fails.append(f"transports not empty when handle_client returned: {ar['transports']}")
-            if ar["open_writers"]: fails.append(f"writers never closed when handle_client returned: {ar['open_writers']}")
+        late = self._late_keys(tr)
+        left_t = [k for k in ar["transports"] if k not in {str(x) for x in late}]
+        left_w = [w for w in ar["open_writers"] if not (w.startswith("s") and w[1:].split(".")[0] in {str(x) for x in late})]
+        if left_t: fails.append(f"transports not empty when handle_client returned: {left_t}")
+        if left_w: fails.append(f"writers never closed when handle_client returned: {left_w}")
+        # a crash of server_event ("mitmproxy has crashed!") is tolerated only for the two asserts the scripted layer can trip
+        # on purpose: OpenConnection for a connection still in transports, SendData to an entry that has no writer yet
+        ent, last_cmd = {}, None
+        for r in tr:
+            if r[0] == "ev": last_cmd = None
+            elif r[0] == "cmd": last_cmd = r
+            elif r[0] == "tset" and r[2] != "c": ent[r[2]] = bool(r[3])
+            elif r[0] == "tdel" and r[2] != "c": ent.pop(r[2], None)
+            elif r[0] == "crash":
+                ok = last_cmd is not None and ((last_cmd[1] == "open" and last_cmd[2] in ent) or
+                                               (last_cmd[1] == "send" and last_cmd[2] in ent and not ent[last_cmd[2]]))
+                if not ok: fails.append(f"server_event crashed ('mitmproxy has crashed!') while processing {last_cmd}")
         return fails
+
+    @staticmethod
+    def _late_keys(tr):
+        """server keys of OpenConnection commands issued after handle_client's client_disconnected hook returned"""
+        seen, keys = False, set()
+        for r in tr:
+            if r[0] == "hookret" and r[1] == "H" and r[2] == "cd": seen = True
+            elif seen and r[0] == "cmd" and r[1] == "open": keys.add(r[2])
+        return keys
+
+    def setup(self, tier):
+        self.known_selftest()
+
+    def known_selftest(self):
+        """C09 has no recorded finding: known() must excuse nothing; and every clause of the oracle must fire on a doctored,
+        hand-written observation (independent of the tree under test) — a silent or over-abstaining oracle cannot pass."""
+        T = [["start", "H", "c"], ["hook", "H", "cc", "c"], ["hookret", "H", "cc", "ok", 0], ["ev", "H", "start", "-"],
+             ["evend", "H"], ["start", "C", "c"], ["readret", "C", "data"], ["ev", "C", "data", "c"],
+             ["cmd", "open", 0, "a"], ["tset", "C", 0, 0], ["evend", "C"], ["start", "s0.0", 0],
+             ["hook", "s0.0", "sc", 0], ["hookret", "s0.0", "sc", "ok", 0], ["semacq", "s0.0"], ["connret", "s0.0", "ok"],
+             ["tset", "s0.0", 0, 1], ["hook", "s0.0", "sd", 0], ["hookret", "s0.0", "sd", "ok", 0],
+             ["readret", "s0.0", "eof"], ["wclose", "s0.0", "s0.0"], ["tdel", "s0.0", 0], ["hook", "s0.0", "sx", 0],
+             ["hookret", "s0.0", "sx", "ok", 0], ["semrel", "s0.0"], ["end", "s0.0", "ok"],
+             ["readret", "C", "eof"], ["wclose", "C", "c"], ["tdel", "C", "c"], ["end", "C", "ok"],
+             ["hook", "H", "cd", "c"], ["hookret", "H", "cd", "ok", 0], ["end", "H", "ok"]]
+        def obs(tr=T, **kw):
+            o = {"trace": [list(x) for x in tr], "returned": True, "exc": None, "max_open": {"a.test:80": 1},
+                 "at_return": {"transports": [], "open_writers": [], "pending_tasks": []}}
+            o.update(kw); return o
+        case = {"steps": []}
+        assert self.oracle(case, obs()) == [], self.oracle(case, obs())
+        cut = lambda pred: [x for x in T if not pred(x)]
+        doctored = {
+            "client_connected missing": obs(cut(lambda x: x[0] == "hook" and x[2] == "cc")),
+            "client_disconnected missing": obs(cut(lambda x: x[0] == "hook" and x[2] == "cd")),
+            "client_disconnected twice": obs(T + [["hook", "H", "cd", "c"]]),
+            "server_connect without outcome": obs(cut(lambda x: x[0] == "hook" and x[2] in ("sd", "sx"))),
+            "two outcomes": obs(T + [["hook", "s0.0", "se", 0]]),
+            "server_connected without server_disconnected": obs(cut(lambda x: x[0] == "hook" and x[2] == "sx")),
+            "six open": obs(max_open={"a.test:80": 6}),
+            "entry left": obs(at_return={"transports": ["0"], "open_writers": [], "pending_tasks": []}),
+            "writer left": obs(at_return={"transports": [], "open_writers": ["s0.0"], "pending_tasks": []}),
+            "client writer left": obs(at_return={"transports": ["c"], "open_writers": ["c"], "pending_tasks": []}),
+            "did not return": obs(returned=False),
+            "raised": obs(exc="KeyError"),
+            "unexplained crash": obs(T[:8] + [["cmd", "close", 0], ["crash", "C"]] + T[11:]),
+            "crash without command": obs(T[:8] + [["crash", "C"]] + T[11:]),
+        }
+        for name, o in doctored.items():
+            fs = self.oracle(case, o)
+            assert fs, f"C09 known_selftest: the oracle is silent on '{name}'"
+            for f in fs: assert self.known(case, o, f) is None, f"C09 known_selftest: known() excuses {f!r}"
+        # the two tolerated asserts are tolerated, and only they
+        ok1 = obs(T[:17] + [["ev", "C", "data", "c"], ["cmd", "open", 0, "a"], ["crash", "C"]] + T[17:])
+        assert self.oracle(case, ok1) == [], self.oracle(case, ok1)
+        ok2 = obs(T[:11] + [["ev", "C", "data", "c"], ["cmd", "send", 0], ["crash", "C"]] + T[11:])
+        assert self.oracle(case, ok2) == [], self.oracle(case, ok2)
+        # a late open excuses exactly what it created
+        lt = T + [["ev", "k0", "hookdone", "-"], ["cmd", "open", 7, "b"], ["tset", "k0", 7, 0], ["evend", "k0"]]
+        assert self.oracle(case, obs(lt, at_return={"transports": ["7"], "open_writers": [], "pending_tasks": []})) == []
+        assert self.oracle(case, obs(lt, at_return={"transports": ["7", "0"], "open_writers": [], "pending_tasks": []}))
+        assert self.oracle(case, obs(lt, at_return={"transports": ["7"], "open_writers": ["s0.0"], "pending_tasks": []}))
 
     @staticmethod
     def _late_open(tr):
